@@ -25,6 +25,7 @@ fn check(id: &str, tier: Tier) -> i32 {
         "C02" => props::c02::check(tier),
         "C03" => props::grouping::check(Which::C03, tier),
         "C06" => props::c06::check(tier),
+        "C07" => props::c07::check(tier),
         "C08" => props::c08::check(tier),
         "C10" => props::c10::check(tier),
         "C11" => props::c11::check(tier),
@@ -47,6 +48,7 @@ fn replay(id: &str, f: &Path) -> i32 {
         "C02" => props::c02::replay(f),
         "C03" => props::grouping::replay(Which::C03, f),
         "C06" => props::c06::replay(f),
+        "C07" => props::c07::replay(f),
         "C08" => props::c08::replay(f),
         "C10" => props::c10::replay(f),
         "C11" => props::c11::replay(f),
@@ -61,10 +63,11 @@ fn replay(id: &str, f: &Path) -> i32 {
 }
 
 fn main() {
-    let args: Vec<String> = std::env::args().collect();
-    if args.first().map(|a| a.ends_with("fcv-tr")).unwrap_or(false) {
-        std::process::exit(grp::helper_main(&args));
+    let os_args: Vec<std::ffi::OsString> = std::env::args_os().collect();
+    if os_args.first().map(|a| a.to_string_lossy().ends_with("fcv-tr")).unwrap_or(false) {
+        std::process::exit(grp::helper_main(&os_args));
     }
+    let args: Vec<String> = os_args.iter().map(|a| a.to_string_lossy().to_string()).collect();
     if args.len() < 3 {
         usage();
     }
